@@ -670,6 +670,14 @@ class WBEMSubscriptionManager:
             if name is not None:
                 raise ValueError("For owned destinations, the 'name' "
                                  "parameter must not be specified")
+            if not isinstance(destination_id, str):
+                raise TypeError(
+                    _format("Invalid type for destination ID: {0!A}",
+                            destination_id))
+            if ':' in destination_id:
+                raise ValueError(
+                    _format("Destination ID contains ':': {0!A}",
+                            destination_id))
         else:  # permanent
             if name is None:
                 raise ValueError("For permanent destinations, 'name' "
